@@ -5,6 +5,7 @@ CONSTANTS
  MaxFaults = 2
  MaxCrashes = 1
  MaxIdxLoss = 0
+ SyncFlush = TRUE
  InlineAt = 0
  Interval = 1
  MBs = {80}
